@@ -361,14 +361,23 @@ class _Expander(ast.NodeTransformer):
 
     visit_AsyncFunctionDef = visit_FunctionDef
 
-    def _hoist(self, st: ast.stmt, field: str):
+    def _hoist(self, st: ast.stmt, field: str, whole: bool = False):
         """A statement helper called inside a larger expression: its body is placed before the statement, its value bound
-        to a fresh temporary that replaces the call."""
+        to a fresh temporary that replaces the call. Repeated until no such call is left (`return self._a(x) and not self._b(y)`)."""
+        pre_all: List[ast.stmt] = []
+        for _ in range(8):
+            r = self._hoist_one(st, field, whole)
+            if r is None:
+                break
+            pre_all.extend(r[:-1])
+        return pre_all + [st] if pre_all else None
+
+    def _hoist_one(self, st: ast.stmt, field: str, whole: bool):
         val = getattr(st, field, None)
         if val is None:
             return None
         calls = [c for c in ast.walk(val) if isinstance(c, ast.Call) and _callee_key(c) is not None
-                 and self.kinds.get(_callee_key(c)) == "stmt" and c is not val]
+                 and self.kinds.get(_callee_key(c)) == "stmt" and (whole or c is not val)]
         if not calls:
             return None
         c = calls[0]
@@ -436,7 +445,7 @@ class _Expander(ast.NodeTransformer):
 
     def visit_If(self, node: ast.If):
         # a statement helper called in the test: its body goes before the `if` (the rules' view only; nothing runs)
-        r = self._hoist(node, "test")
+        r = self._hoist(node, "test", whole=True)
         if r is not None:
             return [self.generic_visit(x) for x in r]
         return self.generic_visit(node)
